@@ -644,4 +644,111 @@ def run(ctx):
         check_programs(ctx, rnd, cls, progs, 4)
         rnd.count('class:' + cls, len(progs))
     streams.append(rnd)
+    streams.append(stream_class_helpers(ctx))
     return streams
+
+
+def stream_class_helpers(ctx):
+    """SymbolicOperator.accumulate / get_operators / get_operator_groups: sums through the class helpers"""
+    st = Stream('class-helpers',
+                'Cls.accumulate(operators, start) with and without an explicit start (also start among the summands '
+                'and start = Cls.zero()), followed by an in-place update of the result: value = Model program '
+                '"copy of start; += every summand", the start operand and all summands unchanged, the result not '
+                'aliased to start; get_operators() / get_operator_groups(k): fresh single-term / grouped operators '
+                'whose accumulate() is the original; distinct = distinct cases')
+    of = ctx.of
+    ncase = budget(ctx.tier, 40, 600)
+    if ctx.drift:
+        ncase = max(ncase, 150)
+    for cls in CLASSES:
+        if cls == 'majorana':
+            continue
+        C = cls_of(of, cls)
+        rng = rng_for(ctx.seed, 'c01-acc-' + cls)
+        reqs, cases = [], []
+        for _ in range(ncase):
+            k = rng.randint(1, 4)
+            news = [['new', i, rand_term(rng, cls, 3, 3 if cls not in ('boson', 'quad') else 1), rand_scalar(rng)]
+                    for i in range(k)]
+            ys = [rng.randrange(k) for _ in range(rng.randint(0, 4))]
+            mode = rng.choice(['none', 'var', 'var-in-summands', 'zero'])
+            R = k            # result variable
+            if mode == 'none':
+                head = [['zero', R]]
+                start = None
+            elif mode == 'zero':
+                head = [['zero', k + 1], ['sbin', R, 'mul', k + 1, 1.0]]
+                start = k + 1
+            else:
+                start = rng.randrange(k)
+                if mode == 'var-in-summands':
+                    ys = ys + [start, start][:rng.randint(1, 2)]
+                head = [['sbin', R, 'mul', start, 1.0]]
+            prog = news + head + [['iop', R, 'add', y] for y in ys] + [['iop', R, 'add', 0], ['isop', R, 'mul', 2.0]]
+            case = {'cls': cls, 'check': 'accumulate', 'news': [[n[0], n[1], enc_term(cls, n[2]), to_gq(n[3])] for n in news],
+                    'summands': ys, 'start': mode if start is None or mode == 'zero' else start}
+            cases.append((case, news, ys, mode, start, len(news) + len(head) + len(ys) - 1))
+            reqs.append({'op': 'c01.prog', 'cls': cls, 'nvars': k + 2, 'prog': [enc_stmt(cls, s_) for s_ in prog]})
+        answers = ctx.driver.run(reqs)
+        for (case, news, ys, mode, start, idx), mo in zip(cases, answers):
+            st.case(case)
+            st.count('accumulate:start=' + (mode if mode in ('none', 'zero') else 'operand' if mode == 'var' else 'operand-also-summand'))
+            try:
+                env = {}
+                for n in news:
+                    exec_stmt(C, env, n, cls)
+                k = len(news)
+                if mode == 'zero':
+                    env[k + 1] = C.zero()
+                before = {i: enc_op(cls, env[i].terms) for i in env}
+                sv = env[start] if start is not None else None
+                r = C.accumulate([env[y] for y in ys], sv) if sv is not None or rng.random() < 0.5 \
+                    else C.accumulate([env[y] for y in ys])
+                res1 = enc_op(cls, r.terms)
+                after1 = {i: enc_op(cls, env[i].terms) for i in env}
+                r += env[0]
+                r *= 2.0
+                res2 = enc_op(cls, r.terms)
+                after2 = {i: enc_op(cls, env[i].terms) for i in env}
+            except tuple(ERR) as e:
+                st.violate('accumulate raised %s' % type(e).__name__, case, {})
+                continue
+            if any(isinstance(x, dict) for x in mo) or big(mo[-1]):
+                st.discards += 1
+                continue
+            if canon_op_json(res1) != canon_op_json(mo[idx][k]):
+                st.violate('Cls.accumulate(operators, start) is not start + the sum of the operators', case,
+                           {'implementation': res1, 'model': mo[idx][k]})
+                continue
+            if {i: canon_op_json(v) for i, v in after1.items()} != {i: canon_op_json(v) for i, v in before.items()}:
+                st.violate('Cls.accumulate changed one of its operands (start or a summand)', case,
+                           {'before': before, 'after': after1})
+                continue
+            if canon_op_json(res2) != canon_op_json(mo[-1][k]) or \
+                    {i: canon_op_json(v) for i, v in after2.items()} != {i: canon_op_json(v) for i, v in before.items()}:
+                st.violate('an in-place update of the result of Cls.accumulate changed an operand (result aliases start) '
+                           'or gave a wrong value', case, {'before': before, 'after': after2, 'result': res2,
+                                                           'model_result': mo[-1][k]})
+                continue
+            # get_operators / get_operator_groups
+            try:
+                a = env[0]
+                singles = list(a.get_operators())
+                back = C.accumulate(singles)
+                ok = canon_op_json(enc_op(cls, back.terms)) == canon_op_json(enc_op(cls, a.terms)) and \
+                    all(len(o.terms) == 1 for o in singles)
+                for o in singles:
+                    o *= 3.0
+                ok = ok and canon_op_json(enc_op(cls, a.terms)) == canon_op_json(before[0])
+                if len(a.terms) >= 1:
+                    g = rng.randint(1, max(1, len(a.terms)))
+                    groups = list(a.get_operator_groups(g))
+                    back = C.accumulate(groups)
+                    ok = ok and canon_op_json(enc_op(cls, back.terms)) == canon_op_json(enc_op(cls, a.terms))
+                st.count('get_operators/groups checked')
+                if not ok:
+                    st.violate('get_operators / get_operator_groups do not add up to the operator, or share state with it',
+                               case, {})
+            except tuple(ERR) as e:
+                st.violate('get_operators / get_operator_groups raised %s' % type(e).__name__, case, {})
+    return st
